@@ -402,6 +402,7 @@ def run(ctx):
     ctx.ob("R13.4", "read|anonymous-range", anon, rd.loc(), "a file without a preassigned range is appended at _next_index, which advances to the returned value")
     mapping_before_use(ctx)
     _local_map_keys_agree(ctx)
+    _global_flag_survives_losing(ctx)
 
 def mapping_before_use(ctx):
     """R13.5: merge_from translates every index of an incoming record with `remap`.  A record can refer to a shared type
@@ -519,3 +520,50 @@ def _local_map_keys_agree(ctx, rid="R13.6"):
         ok = acc == "get_true_name"
         ctx.ob(rid, "merge_from|%s.%s|key-is-true-name#%d" % (maps[r["d"]], cs, n), ok, f.loc(c), "`%s` keys the map with %s" % (show(c)[:60], (acc + "()") if acc else show(key)[:30]))
     ctx.floor(rid, "accesses to the local name->index map in merge_from", n, 2)
+
+
+def _global_flag_survives_losing(ctx):
+    """R13.7: "a type is global if any loaded library says so" must not depend on which definition wins the merge.
+    InterrogateType::merge_with() keeps `this` ("we win": OR in the other's F_global) or takes the other wholesale
+    ("they win": `*this = other`); in the second case the bit this type HAD must be saved before the assignment and
+    OR-ed back after it.  (Seed S9-C13: the saved bit was read from `other`; a global forward declaration loaded before
+    a non-global definition lost its flag in that order only, while merge_from had already listed it as global.)"""
+    db = ctx.db
+    ctx.rule("R13.7", "in InterrogateType::merge_with, on the branch that assigns `*this = other`, `this->_flags & F_global` is saved in a local before the assignment and OR-ed into _flags after it; on the other branch other's F_global is OR-ed in")
+    f = db.fn("InterrogateType::merge_with")
+    assigns = [c for c in f.walk() if c.get("k") == "call" and callee_short(c) == "operator=" and
+               any(z.get("k") == "this" for z in walk(c.get("this") or (c.get("a") or [{}])[0]))]
+    if not assigns:
+        ctx.broken("R13.7: `*this = other` not found in merge_with")
+        return
+    a = assigns[0]
+
+    def reads_global_of(n, owner_is_this):
+        n = strip_casts(peel(n)) if n is not None else None
+        if n is None or n.get("k") != "bin" or n.get("op") != "&":
+            return False
+        sides = [strip_casts(peel(n["x"])), strip_casts(peel(n["y"]))]
+        has_bit = any(z is not None and z.get("k") == "ref" and (z.get("n") or "").endswith("F_global") for z in sides)
+        fl = [z for z in sides if z is not None and z.get("k") == "mem" and (z.get("n") or "").endswith("::_flags")]
+        if not (has_bit and fl):
+            return False
+        base = strip_casts(peel(fl[0].get("b")))
+        is_this = base is not None and base.get("k") == "this"
+        return is_this == owner_is_this
+    saved = None
+    for y in f.walk():
+        if y.get("k") == "decls":
+            for dd in y["d"]:
+                if dd.get("init") is not None and reads_global_of(dd["init"], True) and y.get("i", 0) < a.get("i", 0):
+                    saved = dd
+    restored = False
+    if saved is not None:
+        for y in f.walk():
+            if y.get("k") == "bin" and y.get("op") == "|=" and (field_of(strip_casts(peel(y["x"]))) or "").endswith("::_flags") and \
+               (local_ref(y["y"]) or {}).get("d") == saved["d"] and y.get("i", 0) > a.get("i", 0):
+                restored = True
+    ctx.ob("R13.7", "merge_with|they-win|own-global-bit-saved-and-restored", saved is not None and restored, f.loc(a),
+           "`this->_flags & F_global` is saved before `*this = other` and OR-ed back afterwards" if saved is not None and restored else
+           "the F_global bit this type had is lost when the other definition wins")
+    we = [y for y in f.walk() if y.get("k") == "bin" and y.get("op") == "|=" and (field_of(strip_casts(peel(y["x"]))) or "").endswith("::_flags") and reads_global_of(y["y"], False)]
+    ctx.ob("R13.7", "merge_with|we-win|other-global-bit-added", bool(we), f.loc(we[0]) if we else f.loc(), "`_flags |= other._flags & F_global` on the branch that keeps this definition")
